@@ -49,8 +49,7 @@ Proof. exact reject_sound_bytes. Qed.
 (* MANDATORY STRUCTURE IS ENFORCED, unbounded.  gen/Specs.v lists, per type, the languages obtained from the independent
    specification by leaving out exactly one mandatory element: a mandatory field, every occurrence of a mandatory
    repetitive field, a whole mandatory sequence, or a mandatory element of one occurrence of a sequence (that occurrence
-   anywhere among any number of complete ones): 139 languages over the 30 types.  For each of them except the one
-   listed in deletion_open (MT935 B.37H, where the analysis is too coarse; the library does reject), EVERY text whose tag sequence is a word of the language and whose tokens are good (see
+   anywhere among any number of complete ones): 139 languages over the 30 types.  For each of them (deletion_open is empty), EVERY text whose tag sequence is a word of the language and whose tokens are good (see
    Props/C03.v) is rejected by the regenerated layout, and the error is true of the text (what is reported missing is
    not the next field, what is reported malformed is in the text and its parser rejects it).  Proved by the same
    abstract interpreter as the inclusion of C03, in the mode that drops the paths that certainly reject
